@@ -278,10 +278,8 @@ MUTANTS = [
                  "def support_deprecated_rabbitmq(enabled: bool = False)")]),
     dict(id='c11-out-of-range-valueerror', property='C11',
          what='out-of-range table integer raises ValueError',
-         edits=[(E, "    raise TypeError('Unsupported numeric value: {}'."
-                    "format(value))",
-                 "    raise ValueError('Unsupported numeric value: {}'."
-                 "format(value))", 0)]),
+         edits=[(E, "    raise TypeError(_unsupported_numeric(value))",
+                 "    raise ValueError(_unsupported_numeric(value))", 0)]),
     dict(id='c11-long-int-guard-loose', property='C11',
          what='long_int range guard one too wide (struct.error instead of '
               'TypeError at 2^31)',
